@@ -352,6 +352,13 @@ def list_sort(I, st, obj, kwargs, node):
 
 
 def iter_builtin(I, st, name, args, kwargs, node):
+    if name == "sorted":
+        # sorted(xs, key=f, reverse=b): a fresh copy of the list, then the list.sort contract on the copy
+        o = to_list(I, st, args[0], node)
+        if o.term is None:
+            return o
+        list_sort(I, st, o, kwargs, node)
+        return o
     if name == "filter":
         return Val("View", ("filter", args[0], args[1]))
     if name == "enumerate":
